@@ -1592,6 +1592,8 @@ struct Exec {
     agg: Option<(Agg, ParamsVerifierKZG<E>, [Vec<F>; AGG_N])>,
     agg_failed: bool,
     baselines: HashMap<String, usize>,
+    /// quick tier: expensive follow-up stages run on a deterministic sample of the cases
+    thorough: bool,
 }
 
 fn panic_ev(stage: &str, p: &PanicInfo) -> Json {
@@ -1617,7 +1619,12 @@ fn felts(hexes: &[String]) -> Vec<F> {
 }
 
 impl Exec {
-    fn new(c: Corpus) -> Result<Exec, String> {
+    /// deterministic 1-in-n sample keyed by the input (always true in the thorough tier)
+    fn sampled(&self, input: &[u8], n: u64) -> bool {
+        self.thorough || fnv(input) % n == 0
+    }
+
+    fn new(c: Corpus, thorough: bool) -> Result<Exec, String> {
         let ops = all_ops();
         let pv = ParamsVerifierKZG::<E>::read(&mut &unhex(&c.pv_r)[..], SerdeFormat::RawBytes)
             .map_err(|e| format!("honest verifier params do not decode: {e}"))?;
@@ -1630,7 +1637,7 @@ impl Exec {
             );
             pis.push(felts(&r.pi));
         }
-        Ok(Exec { c, ops, pv, vks, pis, small_srs: None, agg: None, agg_failed: false, baselines: HashMap::new() })
+        Ok(Exec { c, ops, pv, vks, pis, small_srs: None, agg: None, agg_failed: false, baselines: HashMap::new(), thorough })
     }
 
     fn proof_of(&self, s: usize, h: HashKind) -> Vec<u8> {
@@ -1649,9 +1656,12 @@ impl Exec {
 
     /// verification of the fixed valid proofs of relation `s` under `vk` (both hashes, single and
     /// batched); every panic is an event, every acceptance is counted
-    fn verify_with_vk(&self, s: usize, vk: &MidnightVK, changed: bool, ev: &mut Vec<Json>, stage: &mut dyn FnMut(&str)) {
+    fn verify_with_vk(&self, s: usize, vk: &MidnightVK, changed: bool, full: bool, ev: &mut Vec<Json>, stage: &mut dyn FnMut(&str)) {
         stage("verify");
         for h in [HashKind::Blake, HashKind::Poseidon] {
+            if h == HashKind::Poseidon && !full {
+                continue;
+            }
             let proof = self.proof_of(s, h);
             match catch_any(|| (self.ops[s].verify)(&self.pv, vk, &proof, h)) {
                 Err(p) => ev.push(panic_ev("verify", &p)),
@@ -1669,6 +1679,9 @@ impl Exec {
             Ok(Ok(())) => ev.push(json!({"k": "accepted", "st": "batch", "changed": changed})),
             Ok(Err(_)) => {}
         }
+        if !full {
+            return;
+        }
         let pp = self.proof_of(s, HashKind::Poseidon);
         match catch_any(|| self.batch(HashKind::Poseidon, &[vk.clone()], &[pi.clone()], &[pp.clone()])) {
             Err(p) => ev.push(panic_ev("batch", &p)),
@@ -1677,7 +1690,7 @@ impl Exec {
         }
     }
 
-    fn compile(&mut self, rel: &ZkirRelation, ev: &mut Vec<Json>, stage: &mut dyn FnMut(&str)) {
+    fn compile(&mut self, rel: &ZkirRelation, with_setup: bool, ev: &mut Vec<Json>, stage: &mut dyn FnMut(&str)) {
         stage("compile");
         let r = catch_any(|| {
             let circuit = MidnightCircuit::new(rel, Value::unknown(), Value::unknown(), Some(8));
@@ -1693,6 +1706,9 @@ impl Exec {
                 return;
             }
             Ok(Ok(())) => ev.push(count_ev("compile_ok")),
+        }
+        if !with_setup {
+            return;
         }
         stage("setup");
         let k = match catch_any(|| midnight_zk_stdlib::cost_model(rel).k) {
@@ -1786,7 +1802,8 @@ impl Exec {
                             }
                         }
                         if s < self.vks.len() {
-                            self.verify_with_vk(s, &vk, changed, &mut ev, stage);
+                            let full = self.sampled(input, 4);
+                            self.verify_with_vk(s, &vk, changed, full, &mut ev, stage);
                         }
                     }
                 }
@@ -1879,8 +1896,14 @@ impl Exec {
                 stage("batch");
                 let pi = self.pis[s].clone();
                 let honest_proof = self.proof_of(s, h);
+                // two-member batch (accumulation path) on a sample, single-member batch otherwise
+                let two = ok || self.sampled(input, 8);
                 match catch_any(|| {
-                    self.batch(h, &[self.vks[s].clone(), self.vks[s].clone()], &[pi.clone(), pi.clone()], &[input.to_vec(), honest_proof.clone()])
+                    if two {
+                        self.batch(h, &[self.vks[s].clone(), self.vks[s].clone()], &[pi.clone(), pi.clone()], &[input.to_vec(), honest_proof.clone()])
+                    } else {
+                        self.batch(h, &[self.vks[s].clone()], &[pi.clone()], &[input.to_vec()])
+                    }
                 }) {
                     Err(p) => ev.push(panic_ev("batch", &p)),
                     Ok(Ok(())) => ev.push(json!({"k": "accepted", "st": "batch", "changed": changed})),
@@ -1897,7 +1920,8 @@ impl Exec {
                     Ok(Err(_)) => {}
                     Ok(Ok(rel)) => {
                         ok = true;
-                        self.compile(&rel, &mut ev, stage);
+                        let ws = input == &honest_enc[..] || (self.thorough && fnv(input) % 3 == 0) || (!self.thorough && fnv(input) % 8 == 0);
+                        self.compile(&rel, ws, &mut ev, stage);
                     }
                 }
             }
@@ -1913,7 +1937,8 @@ impl Exec {
                         if rel.write_relation(&mut b).is_ok() && b[..] != input[..consumed] {
                             ev.push(json!({"k": "bin_reencode_differs", "consumed": consumed, "reencoded_len": b.len(), "reencoded_is_honest": b == honest()}));
                         }
-                        self.compile(&rel, &mut ev, stage);
+                        let ws = input == &honest_enc[..] || (self.thorough && fnv(input) % 3 == 0) || (!self.thorough && fnv(input) % 8 == 0);
+                        self.compile(&rel, ws, &mut ev, stage);
                     }
                 }
             }
@@ -2417,7 +2442,8 @@ fn make_plan(c: &Corpus, thorough: bool) -> Plan {
             let enc = seed_bytes(c, "vk", if f == "U" { "R" } else { f }, s);
             p.push("main", 0, 1, body("vk", f, s, "honest"));
             if f != "U" {
-                p.push("main", 0, enc.len() as u64 + 1, body("vk", f, s, "trunc"));
+                let stride = if thorough || s == 0 || s == 1 || s + 1 == nrel { 1 } else { 5 };
+                p.push("main", 0, enc.len() as u64 / stride + 1, strided("vk", f, s, stride));
                 let mode = if thorough { ByteMode::All } else if s == 0 || s == 3 { ByteMode::HeaderAll } else { ByteMode::Boundary };
                 push_bytes(&mut p, c, "main", "vk", f, s, mode, thorough);
                 p.push("main", 0, count_bump_cases(&enc, "vk").len() as u64, body("vk", f, s, "cb"));
@@ -2455,10 +2481,27 @@ fn make_plan(c: &Corpus, thorough: bool) -> Plan {
         for s in 0..nrel {
             let enc = seed_bytes(c, "proof", f, s);
             p.push("main", 0, 1, body("proof", f, s, "honest"));
-            let every = thorough || s == 0 || s == 1 || s + 1 == nrel;
-            let stride = if every { 1 } else { 7 };
+            let favoured = s == 0 || s == 1 || s + 1 == nrel;
+            let stride = if thorough {
+                1
+            } else if f == "blake2b" {
+                if favoured { 1 } else { 7 }
+            } else if s == 0 {
+                1
+            } else if favoured {
+                5
+            } else {
+                11
+            };
             p.push("main", 0, enc.len() as u64 / stride + 1, strided("proof", f, s, stride));
-            push_bytes(&mut p, c, "main", "proof", f, s, if thorough { ByteMode::All } else { ByteMode::Boundary }, thorough);
+            // flag bytes of the first elements of each kind: all values in thorough; flag bytes of
+            // every element: boundary values
+            if thorough {
+                push_bytes(&mut p, c, "main", "proof", f, s, ByteMode::All, false);
+                push_bytes(&mut p, c, "main", "proof", f, s, ByteMode::Boundary, true);
+            } else {
+                push_bytes(&mut p, c, "main", "proof", f, s, ByteMode::Boundary, false);
+            }
             p.push("main", 0, (rand_per_class / (2 * nrel as u64)).max(1), body("proof", f, s, "rand"));
         }
     }
@@ -2471,12 +2514,12 @@ fn make_plan(c: &Corpus, thorough: bool) -> Plan {
         p.push("main", 0, enc.len() as u64 + 1, body("zkir_json", "-", s, "trunc"));
         let n_gram = zkir_grammar_mutations(&text, false).len() as u64;
         let mut b = body("zkir_json", "-", s, "gram");
-        let step = if thorough { 1 } else { (n_gram / 600).max(1) };
+        let step = if thorough { 1 } else { (n_gram / 450).max(1) };
         b["step"] = json!(step);
         p.push("main", 0, n_gram / step, b);
         let n_huge = zkir_grammar_mutations(&text, true).len() as u64;
         let mut b = body("zkir_json", "-", s, "gramhuge");
-        let step = if thorough { 1 } else { (n_huge / 10).max(1) };
+        let step = if thorough { 1 } else { (n_huge / 6).max(1) };
         b["step"] = json!(step);
         p.push("huge", 0, n_huge / step, b);
         p.push("main", 0, (rand_per_class / c.zkir_json.len() as u64).max(1), body("zkir_json", "-", s, "rand"));
@@ -2556,7 +2599,7 @@ fn shards_of(p: &Plan, children: usize, thorough: bool) -> Vec<Vec<Unit>> {
     }
     let huge = pick("huge");
     if !huge.is_empty() {
-        let n = if thorough { 4 } else { 2 };
+        let n = if thorough { 8 } else { 4 };
         shards.extend(tot::shard_units(huge.clone(), total(&huge) / n + 1));
     }
     let heavy = pick("heavy");
@@ -2667,6 +2710,9 @@ fn finish_report(mut ag: Aggr, planned: u64, stats: &tot::ParentStats, scratch: 
     ag.rep.set("matrix_object_format__mutator__verdict", matrix);
     ag.rep.set("reported_only", json!(ag.reported));
     ag.rep.set("candidates_by_signature", json!(ag.cands.values().map(|c| (c.signature.clone(), c.count)).collect::<BTreeMap<_, _>>()));
+    let mut slowest = stats.shard_secs.clone();
+    slowest.sort_by(|a, b| b.2.partial_cmp(&a.2).unwrap_or(std::cmp::Ordering::Equal));
+    slowest.truncate(8);
     ag.rep.set(
         "runner",
         json!({
@@ -2675,6 +2721,7 @@ fn finish_report(mut ag: Aggr, planned: u64, stats: &tot::ParentStats, scratch: 
             "abandoned_shards": stats.abandoned_shards, "rlimit_failures": stats.rlimit_failures,
             "allocator_missing": stats.allocator_missing, "notes": stats.notes, "hangs_inconclusive": ag.hangs,
             "rlimit_as_bytes": tot::DEFAULT_RLIMIT_AS,
+            "slowest_shards_no_cases_secs": slowest,
         }),
     );
     ag.rep.set("allocation", json!({"max_peak_live_bytes": ag.max_peak, "max_peak_over_bound": ag.max_peak_over_bound, "bound": "64*len(input) + honest peak + 16 MiB"}));
@@ -2712,7 +2759,7 @@ fn main() {
                 std::process::exit(3);
             }
         };
-        let mut ex = match Exec::new(c) {
+        let mut ex = match Exec::new(c, thorough) {
             Ok(e) => e,
             Err(e) => {
                 eprintln!("child: {e}");
@@ -2763,7 +2810,7 @@ fn main() {
     // ---- sanitizer stage: small in-process corpus, no children, no rlimit ----------------------
     if san {
         let mut ag = Aggr::new(&corpus, rep);
-        let mut ex = match Exec::new(corpus.clone()) {
+        let mut ex = match Exec::new(corpus.clone(), thorough) {
             Ok(e) => e,
             Err(e) => {
                 ag.rep.inconclusive(&e);
@@ -2853,6 +2900,8 @@ fn main() {
         ag.units.insert(u.id, u.body.clone());
     }
     let shards = shards_of(&plan, children, thorough);
+    eprintln!("[c16] corpus {:.1}s, {} planned cases in {} shards", corpus.build_secs, planned, shards.len());
+    let t_run = std::time::Instant::now();
     let stats = {
         let mut sink = |r: CaseResult| ag.take(r);
         tot::run_shards(&cfg, shards, &mut sink)
@@ -2877,7 +2926,10 @@ fn main() {
             (false, other) => ag.rep.inconclusive(&format!("honest bincode ZKIR seed {s} does not decode ({other:?})")),
         }
     }
+    eprintln!("[c16] main run {:.1}s, {} candidates to confirm", t_run.elapsed().as_secs_f64(), ag.cands.len());
+    let t_conf = std::time::Instant::now();
     confirm_and_report(&mut ag, &cfg);
+    eprintln!("[c16] confirmation {:.1}s", t_conf.elapsed().as_secs_f64());
     finish_report(ag, planned, &stats, &scratch);
 }
 
